@@ -100,7 +100,7 @@ PROPS = {
     },
     'C06': {
         'level': 'other',
-        'proof': [('contracts.value_classes', None)],
+        'proof': [('contracts.value_classes', None), ('contracts.fmapping', None)],
         'custom': [('contracts.b_structs', 'bounded_value_classes'),
                    # the input-immutability clauses of the dataset derivations (the rest of that check serves C14)
                    ('contracts.b_data', 'bounded_dataset_derivations', None, r'is not modified|input model')],
